@@ -99,12 +99,12 @@ class Seam:
     def install(self):
         from usim._core import loop as L
         cls = L.Loop
-        for attr in ("_run_coroutine", "schedule", "__init__"):
+        for attr in ("_run_coroutine", "schedule", "__init__", "run"):
             if not callable(getattr(cls, attr, None)):
                 raise SeamMissing("usim._core.loop.Loop.%s" % attr)
         self._cls = cls
-        self._orig = (cls._run_coroutine, cls.schedule, cls.__init__)
-        orig_run, orig_sched, orig_init = self._orig
+        self._orig = (cls._run_coroutine, cls.schedule, cls.__init__, cls.run)
+        orig_run, orig_sched, orig_init, orig_loop_run = self._orig
         seam = self
 
         def _run_coroutine(loop, target, signal=None):
@@ -125,16 +125,26 @@ class Seam:
             orig_init(loop, *coroutines, start=start)
             seam._on_loop_init(loop, coroutines, start)
 
+        def run(loop):
+            try:
+                orig_loop_run(loop)
+            except BaseException:
+                # a failed run legitimately abandons whatever was still queued
+                seam._model(loop).tainted = True
+                raise
+            seam._finish_loop(loop)
+
         cls._run_coroutine = _run_coroutine
         cls.schedule = schedule
         cls.__init__ = __init__
+        cls.run = run
         self.installed = True
         return self
 
     def uninstall(self):
         if self.installed:
             cls = self._cls
-            cls._run_coroutine, cls.schedule, cls.__init__ = self._orig
+            cls._run_coroutine, cls.schedule, cls.__init__, cls.run = self._orig
             self.installed = False
 
     def __enter__(self):
@@ -250,17 +260,20 @@ class Seam:
         model.time = now
 
     def finish(self, loop_time=None):
-        """Called after the outermost run() returned normally: nothing live may be left."""
-        for model in self.models.values():
-            if model.tainted:
-                continue
-            for due, queue in model.queues.items():
-                left = [e for e in queue if e[1] is None or e[1]]
-                if left:
-                    self._kv("C15/run-returned-with-pending-work",
-                             "run() returned with %d live activation(s) due at %r (first: %s)"
-                             % (len(left), due, self.name_of(left[0][0])))
-                    break
+        """Kept for callers: every loop is checked when its own run() returns."""
+
+    def _finish_loop(self, loop):
+        """Loop.run() returned normally: nothing live may be left in that loop."""
+        model = self.models.get(id(loop))
+        if model is None or model.loop is not loop or model.tainted:
+            return
+        for due, queue in model.queues.items():
+            left = [e for e in queue if e[1] is None or e[1]]
+            if left:
+                self._kv("C15/run-returned-with-pending-work",
+                         "run() returned with %d live activation(s) due at %r (first: %s)"
+                         % (len(left), due, self.name_of(left[0][0])))
+                break
 
     # -- faults ------------------------------------------------------------------------
     def _fire_due(self):
